@@ -11,6 +11,7 @@ import (
 	"fmt"
 	"strconv"
 	"strings"
+	"sync"
 	"time"
 
 	"github.com/matrix-org/gomatrixserverlib/tokens"
@@ -55,6 +56,116 @@ func c20Secret(name string) []byte {
 		return []byte(a[:16])
 	}
 	return []byte(name)
+}
+
+// --- user IDs: the alphabet dimension of Tokens.tla ("~frame~class~position") -------------------------------------
+// The model names a structured user ID; the bytes are chosen here.  One text per character class, placed in a frame
+// (a full Matrix ID or the bare localpart) at a position.  Distinct names MUST give distinct byte strings (the model
+// says "another user"): asserted once over the whole table.
+var c20ClassText = map[string]string{
+	"none": "",
+	// URL escaping: the query and the path flavour disagree on '+'; '%' starts an escape - valid, lower case,
+	// not hexadecimal, cut short
+	"plus": "+", "space": " ", "pct_plus": "%2B", "pct_plus_lc": "%2b", "pct_space": "%20", "pct_pct": "%25",
+	"pct_bare": "%", "pct_hex": "%41", "pct_trunc": "%4",
+	// separators of URLs, forms, Matrix IDs and caveat texts
+	"slash": "/", "pct_slash": "%2F", "question": "?", "hash": "#", "amp": "&", "eq": "=", "semicolon": ";",
+	"colon": ":", "at": "@", "comma": ",", "dot": ".", "cav_sep": " = ", "cav_user": "user_id = ",
+	// JSON / log escaping, control characters
+	"quote": "\"", "backslash": "\\", "newline": "\n", "crlf": "\r\n", "tab": "\t", "nul": "\x00", "del": "\x7f",
+	// base64 alphabets, markup
+	"b64url": "-_", "lt": "<",
+	// Unicode: composed, decomposed, outside the BMP, bytes that are not UTF-8, a byte order mark
+	"nonascii": "\u00e9", "nfd": "e\u0301", "astral": "\U0001F600", "notutf8": "\xe9", "bom": "\ufeff",
+	// lengths beyond what 7 bits, one byte and two bytes can say
+	"long200": strings.Repeat("x", 200), "long300": strings.Repeat("x", 300), "long70k": strings.Repeat("x", 70000),
+}
+
+var c20Frames = map[string][4]string{ // prefix, first half, second half, suffix
+	"mxid": {"@", "alice", "work", ":example.org"},
+	"bare": {"", "alice", "work", ""},
+}
+
+func c20Place(frame, class, pos string) (string, bool) {
+	f, ok := c20Frames[frame]
+	m, ok2 := c20ClassText[class]
+	if !ok || !ok2 {
+		panic("Tokens.tla names a user ID the harness cannot realise: ~" + frame + "~" + class + "~" + pos)
+	}
+	switch pos {
+	case "lead":
+		return f[0] + m + f[1] + f[2] + f[3], true
+	case "mid":
+		return f[0] + f[1] + m + f[2] + f[3], true
+	case "trail":
+		return f[0] + f[1] + f[2] + m + f[3], true
+	case "end":
+		return f[0] + f[1] + f[2] + f[3] + m, f[3] != ""
+	case "only":
+		return f[0] + m + f[3], true
+	case "twice":
+		return f[0] + f[1] + m + f[2] + m + f[3], true
+	}
+	panic("Tokens.tla names a position the harness cannot realise: " + pos)
+}
+
+var c20UsersOnce sync.Once
+
+// c20User realises a model user ID: structured names as above, every other name as it is.  The second result is the
+// character class ("" for a plain name).
+func c20User(name string) (string, string) {
+	if !strings.HasPrefix(name, "~") {
+		return name, ""
+	}
+	c20UsersOnce.Do(func() {
+		seen := map[string]string{}
+		for fr := range c20Frames {
+			for cl := range c20ClassText {
+				for _, pos := range []string{"lead", "mid", "trail", "end", "only", "twice"} {
+					if cl == "none" && pos != "mid" || strings.HasPrefix(cl, "long") && pos != "mid" { // WellPlaced
+						continue
+					}
+					u, ok := c20Place(fr, cl, pos)
+					if !ok {
+						continue
+					}
+					n := "~" + fr + "~" + cl + "~" + pos
+					if o, dup := seen[u]; dup {
+						panic(fmt.Sprintf("user IDs %s and %s are the same byte string %.40q", o, n, u))
+					}
+					seen[u] = n
+				}
+			}
+		}
+	})
+	p := strings.Split(name[1:], "~")
+	if len(p) != 3 {
+		panic("malformed structured user ID " + name)
+	}
+	u, ok := c20Place(p[0], p[1], p[2])
+	if !ok || u == "" {
+		panic("structured user ID " + name + " is not well placed")
+	}
+	return u, p[1] + "@" + p[2]
+}
+
+// c20IssuedID is the macaroon identifier the library itself gives a token for this user (what GetUserFromToken reads
+// the user from is the library's business: tokens the harness mints - shifted expiry, faulty issuers - carry the
+// identifier a real issue would).
+func c20IssuedID(key []byte, user string) string {
+	t, err := tokens.GenerateLoginToken(tokens.TokenOptions{ServerPrivateKey: key, ServerName: "example.org", UserID: user})
+	if err != nil {
+		return user
+	}
+	bin, err := base64.RawURLEncoding.DecodeString(t)
+	if err != nil {
+		return user
+	}
+	var m macaroon.Macaroon
+	if err := m.UnmarshalBinary(bin); err != nil {
+		return user
+	}
+	return string(m.Id())
 }
 
 // c20ThirdParty appends a third-party caveat to the token (no key needed) and, if discharged, returns the binary
@@ -138,9 +249,28 @@ func c20Replay(i int, raw json.RawMessage) Result {
 	if delta > 0 {
 		sgn = "live"
 	}
-	nt := fmt.Sprintf("%s|%v|%s|key=%v|user=%v|%v", r.Call, r.Altered, sgn, r.Secret == r.VSecret, r.User == r.VUser, r.OK)
+	sameUser := r.User == r.VUser // in the model; the realisation is injective
+	var ucls, vcls string
+	r.User, ucls = c20User(r.User)
+	if r.VUser != "" {
+		r.VUser, vcls = c20User(r.VUser)
+	}
+	nt := fmt.Sprintf("%s|%v|%s|key=%v|user=%v|%v", r.Call, r.Altered, sgn, r.Secret == r.VSecret, sameUser, r.OK)
+	ukey := ""
+	if ucls != "" {
+		// the character class of the user ID is the point of such a scenario (the position is a neighbouring value)
+		c := strings.SplitN(ucls, "@", 2)[0]
+		ukey = "userclass=" + c + "/"
+		if vcls != "" && !sameUser {
+			vc := strings.SplitN(vcls, "@", 2)[0]
+			ukey += "validated-as=" + vc + "/"
+			nt += "|user:" + c + ">" + vc
+		} else {
+			nt += "|user:" + ucls
+		}
+	}
 	keyOf := func(stage string) string {
-		return fmt.Sprintf("C20/%s/altered=%s/%s/samekey=%v/sameuser=%v/model=%v", stage, strings.Join(r.Altered, "+"), sgn, r.Secret == r.VSecret, r.User == r.VUser, r.OK)
+		return fmt.Sprintf("C20/%s/%saltered=%s/%s/samekey=%v/sameuser=%v/model=%v", stage, ukey, strings.Join(r.Altered, "+"), sgn, r.Secret == r.VSecret, sameUser, r.OK)
 	}
 
 	var token string
@@ -150,24 +280,26 @@ func c20Replay(i int, raw json.RawMessage) Result {
 		t, err := tokens.GenerateLoginToken(tokens.TokenOptions{ServerPrivateKey: key, ServerName: "example.org", UserID: r.User, Duration: r.Dur})
 		after := time.Now().Unix()
 		if err != nil {
-			return Result{OK: false, Key: "C20/issue/error", What: "GenerateLoginToken failed: " + err.Error()}
+			return Result{OK: false, NT: nt, Key: "C20/issue/" + ukey + "error", What: fmt.Sprintf("GenerateLoginToken for user %.80q failed: %v", r.User, err)}
 		}
 		token = t
 		bin, err := base64.RawURLEncoding.DecodeString(t)
 		if err != nil {
-			return Result{OK: false, Key: "C20/issue/encoding", What: "issued token is not unpadded URL-safe base64"}
+			return Result{OK: false, NT: nt, Key: "C20/issue/" + ukey + "encoding", What: "issued token is not unpadded URL-safe base64"}
 		}
 		var m macaroon.Macaroon
 		if err := m.UnmarshalBinary(bin); err != nil {
-			return Result{OK: false, Key: "C20/issue/encoding", What: "issued token is not a macaroon: " + err.Error()}
+			return Result{OK: false, NT: nt, Key: "C20/issue/" + ukey + "encoding", What: "issued token is not a macaroon: " + err.Error()}
 		}
 		var cavs []string
 		for _, c := range m.Caveats() {
 			cavs = append(cavs, string(c.Id))
 		}
 		okShape := len(cavs) == 3 && cavs[0] == tokens.Gen && cavs[1] == tokens.UserPrefix+r.User && strings.HasPrefix(cavs[2], tokens.TimePrefix)
-		if !okShape || string(m.Id()) != r.User {
-			return Result{OK: false, Key: "C20/issue/caveats", What: fmt.Sprintf("issued token has id %q caveats %q", m.Id(), cavs)}
+		// (the identifier is not compared: what GetUserFromToken reads the user from is the library's business,
+		// and every issue is followed by a GetUser in the model)
+		if !okShape {
+			return Result{OK: false, NT: nt, Key: "C20/issue/" + ukey + "caveats", What: fmt.Sprintf("token issued for %.60q has id %.60q caveats %.120q", r.User, m.Id(), cavs)}
 		}
 		exp, err := strconv.ParseInt(cavs[2][len(tokens.TimePrefix):], 10, 64)
 		if err != nil || exp < before+int64(eff) || exp > after+int64(eff) {
@@ -179,7 +311,8 @@ func c20Replay(i int, raw json.RawMessage) Result {
 		now := time.Now().Unix()
 		exp := now + int64(realDelta)
 		std := []string{tokens.Gen, tokens.UserPrefix + r.User, tokens.TimePrefix + strconv.FormatInt(exp, 10)}
-		bin := c20Mint(key, r.User, std)
+		id := c20IssuedID(key, r.User)
+		bin := c20Mint(key, id, std)
 		other := "@bob:example.org"
 		if r.User == other {
 			other = "@alice:example.org"
@@ -199,10 +332,10 @@ func c20Replay(i int, raw json.RawMessage) Result {
 					}
 				}
 			case "flip_id":
-				if p := bytes.Index(bin, []byte(r.User)); p >= 0 {
+				if p := bytes.Index(bin, []byte(id)); p >= 0 {
 					bin = append([]byte(nil), bin...)
 					bin[p]++
-				} else if p := bytes.Index(bin, []byte(r.User)[1:]); p > 0 {
+				} else if p := bytes.Index(bin, []byte(id)[1:]); p > 0 {
 					bin = append([]byte(nil), bin...)
 					bin[p-1]++
 				}
@@ -229,17 +362,17 @@ func c20Replay(i int, raw json.RawMessage) Result {
 			case "add_third_party_discharged":
 				bin = c20ThirdParty(bin, true)
 			case "mint_no_time":
-				bin = c20Mint(key, r.User, std[:2])
+				bin = c20Mint(key, id, std[:2])
 			case "mint_no_gen":
-				bin = c20Mint(key, r.User, std[1:])
+				bin = c20Mint(key, id, std[1:])
 			case "mint_no_user":
-				bin = c20Mint(key, r.User, []string{std[0], std[2]})
+				bin = c20Mint(key, id, []string{std[0], std[2]})
 			case "mint_extra_unknown":
-				bin = c20Mint(key, r.User, append(append([]string{}, std...), "unknown = 1"))
+				bin = c20Mint(key, id, append(append([]string{}, std...), "unknown = 1"))
 			case "mint_gen_near":
 				// not the generation caveat: its text followed by more characters, another letter case, other spacing
 				v := []string{tokens.Gen + "0", tokens.Gen + "x", tokens.Gen + " ", " " + tokens.Gen, "Gen = 1", "gen=1", "gen = 2", "gen = 01", tokens.Gen + ".0"}
-				bin = c20Mint(key, r.User, []string{v[i%len(v)], std[1], std[2]})
+				bin = c20Mint(key, id, []string{v[i%len(v)], std[1], std[2]})
 			case "mint_user_near":
 				// a caveat that is not "user_id = <the user>" although it resembles it; the validating side asks for
 				// r.VUser, so the variants are built around that name (and around the issued one)
@@ -249,13 +382,13 @@ func c20Replay(i int, raw json.RawMessage) Result {
 				if len(vu) > 1 {
 					v = append(v, "user_id = "+vu[:len(vu)-1])
 				}
-				bin = c20Mint(key, r.User, []string{std[0], v[i%len(v)], std[2]})
+				bin = c20Mint(key, id, []string{std[0], v[i%len(v)], std[2]})
 			case "mint_time_near":
 				es := strconv.FormatInt(exp, 10)
 				v := []string{"Time < " + es, "time <" + es, "time <= " + es, "time > " + es, " " + tokens.TimePrefix + es,
 					tokens.TimePrefix + es + "x", tokens.TimePrefix + es + ".0", tokens.TimePrefix + es + " ", tokens.TimePrefix + " " + es,
 					tokens.TimePrefix + "0x7fffffffffff", tokens.TimePrefix + "9" + strings.Repeat("9", 19), tokens.TimePrefix, tokens.TimePrefix + "never"}
-				bin = c20Mint(key, r.User, []string{std[0], std[1], v[i%len(v)]})
+				bin = c20Mint(key, id, []string{std[0], std[1], v[i%len(v)]})
 			default:
 				panic("unknown alteration " + k)
 			}
@@ -284,9 +417,33 @@ func c20Replay(i int, raw json.RawMessage) Result {
 		}
 	case "getuser":
 		u, err := tokens.GetUserFromToken(token)
-		if r.GUser != "" && (err != nil || u != r.GUser) {
-			return Result{OK: false, NT: nt, Key: keyOf("getuser"), Want: r.GUser, Got: u, What: fmt.Sprintf("GetUserFromToken = %q, %v", u, err)}
+		if r.GUser != "" {
+			want, _ := c20User(r.GUser)
+			if err != nil || u != want {
+				return Result{OK: false, NT: nt, Key: keyOf("getuser"), Want: want, Got: u,
+					What: fmt.Sprintf("token issued for %.80q: GetUserFromToken = %.80q, %v", want, u, err)}
+			}
 		}
+	case "validate_read":
+		// the caller pattern: read the user from the token, validate for the user READ (not for the model's name)
+		u, gerr := tokens.GetUserFromToken(token)
+		var verr error
+		got := false
+		if gerr == nil {
+			verr = tokens.ValidateToken(tokens.TokenOptions{ServerPrivateKey: c20Secret(r.VSecret), ServerName: "example.org", UserID: u}, token)
+			got = verr == nil
+		}
+		if got != r.OK {
+			return Result{OK: false, NT: nt, Key: keyOf("validate_read"), Want: r.OK, Got: got,
+				What: fmt.Sprintf("GetUserFromToken then ValidateToken for the user read: model says ok=%v, code says ok=%v (token issued for %.80q, read %.80q err=%v, validate err=%v); token altered by %v, %d s of validity left, same key=%v",
+					r.OK, got, r.User, u, gerr, verr, r.Altered, delta, r.Secret == r.VSecret)}
+		}
+		if got && u != r.User {
+			return Result{OK: false, NT: nt, Key: keyOf("validate_read") + "/other-user", Want: r.User, Got: u,
+				What: fmt.Sprintf("a token issued for %.80q reads as %.80q and validates for it", r.User, u)}
+		}
+	default:
+		panic("unknown call " + r.Call)
 	}
 	return Result{OK: true, NT: nt}
 }
